@@ -1,4 +1,489 @@
-//! C11 monitor (not written yet).
-pub fn run(_ctx: &crate::ctx::Ctx, report: &mut vcore::Report) {
-    report.notes.push("stub".into());
+//! C11 – response encoding honours Accept; request decoding honours Content-Type.
+//!
+//! Headers are *rendered from a structured model* (the oracle never parses a header), the
+//! reference decision is computed from the structure, and the real `ConjureRuntime` is asked.
+use crate::ctx::{guarded, Ctx};
+use conjure_error::{ErrorCode, ErrorKind};
+use conjure_http::server::{
+    ConjureRuntime, DeserializerState, Encoding, JsonEncoding, SerializeResponse, SerializerState,
+    SmileEncoding, StdResponseSerializer,
+};
+use http::header::{ACCEPT, CONTENT_TYPE};
+use http::{HeaderMap, HeaderValue};
+use serde_json::json;
+use vcore::rng::fnv;
+use vcore::{Report, Rng};
+
+/// A harness encoding with an arbitrary media type; (de)serialization is delegated to JSON.
+struct Custom(&'static str);
+
+impl Encoding for Custom {
+    fn content_type(&self) -> HeaderValue {
+        HeaderValue::from_static(self.0)
+    }
+    fn serializer<'a>(&self, w: &'a mut Vec<u8>) -> Box<dyn SerializerState<'a> + 'a> {
+        JsonEncoding.serializer(w)
+    }
+    fn deserializer<'a>(&self, buf: &'a [u8]) -> Box<dyn DeserializerState<'a> + 'a> {
+        JsonEncoding.deserializer(buf)
+    }
+}
+
+/// (id used by the model, content type reported by the encoding, type, subtype)
+#[derive(Clone, Copy, Debug, PartialEq)]
+struct Enc {
+    id: &'static str,
+    content_type: &'static str,
+    ty: &'static str,
+    sub: &'static str,
+}
+
+const ENCODINGS: &[Enc] = &[
+    Enc { id: "json", content_type: "application/json", ty: "application", sub: "json" },
+    Enc { id: "smile", content_type: "application/x-jackson-smile", ty: "application", sub: "x-jackson-smile" },
+    Enc { id: "cbor", content_type: "application/cbor", ty: "application", sub: "cbor" },
+    // a second encoding that also claims application/json (told apart by a parameter)
+    Enc { id: "json2", content_type: "application/json; variant=b", ty: "application", sub: "json" },
+    Enc { id: "text", content_type: "text/x-harness", ty: "text", sub: "x-harness" },
+];
+
+fn build_runtime(regs: &[Enc]) -> ConjureRuntime {
+    let mut b = ConjureRuntime::builder();
+    for e in regs {
+        b = match e.id {
+            "json" => b.encoding(JsonEncoding),
+            "smile" => b.encoding(SmileEncoding),
+            _ => b.encoding(Custom(e.content_type)),
+        };
+    }
+    b.build()
+}
+
+#[derive(Clone, Debug)]
+struct Range {
+    ty: String,  // lower-case canonical, "*" for wildcard
+    sub: String, // lower-case canonical, "*" for wildcard
+    /// quality in thousandths
+    q: u32,
+    q_text: Option<String>,
+    params_before: Vec<(String, String)>,
+    params_after: Vec<(String, String)>,
+    upper: bool,
+    ows: u8,
+}
+
+#[derive(Clone, Debug)]
+enum Entry {
+    Range(Range),
+    Garbage(String),
+}
+
+const OTHER_TYPES: &[(&str, &str)] = &[
+    ("text", "plain"),
+    ("text", "html"),
+    ("application", "xml"),
+    ("application", "octet-stream"),
+    ("image", "png"),
+    ("application", "jsonx"),
+    ("applicatio", "json"),
+];
+
+const GARBAGE: &[&str] = &["garbage", "a/", "/b", "a/b/c", "application", "@/@", "text/pla in", ";q=1", "*"];
+
+fn gen_q(r: &mut Rng) -> (u32, Option<String>) {
+    match r.below(12) {
+        0 | 1 | 2 => (1000, None),
+        3 => (0, Some(r.pick(&["0", "0.0", "0.00", "0.000", "0."]).to_string())),
+        4 => (1000, Some(r.pick(&["1", "1.0", "1.00", "1.000", "1."]).to_string())),
+        5 => {
+            let d = r.below(10) as u32;
+            (d * 100, Some(format!("0.{}", d)))
+        }
+        6 => {
+            let d = r.below(100) as u32;
+            (d * 10, Some(format!("0.{:02}", d)))
+        }
+        _ => {
+            let d = r.below(1000) as u32;
+            (d, Some(format!("0.{:03}", d)))
+        }
+    }
+}
+
+fn gen_range(r: &mut Rng, regs: &[Enc]) -> Range {
+    let (ty, sub) = match r.below(10) {
+        0 | 1 | 2 | 3 => {
+            let e = r.pick(ENCODINGS);
+            (e.ty.to_string(), e.sub.to_string())
+        }
+        4 if !regs.is_empty() => {
+            let e = r.pick(regs);
+            (e.ty.to_string(), e.sub.to_string())
+        }
+        5 => ("*".to_string(), "*".to_string()),
+        6 => (r.pick(&["application", "text", "image"]).to_string(), "*".to_string()),
+        7 if !regs.is_empty() => (r.pick(regs).ty.to_string(), "*".to_string()),
+        _ => {
+            let (t, s) = r.pick(OTHER_TYPES);
+            (t.to_string(), s.to_string())
+        }
+    };
+    let (q, q_text) = gen_q(r);
+    let mut params_before = vec![];
+    let mut params_after = vec![];
+    if r.chance(1, 8) {
+        params_before.push(("charset".to_string(), r.pick(&["utf-8", "UTF-8", "\"utf-8\""]).to_string()));
+    }
+    if r.chance(1, 12) {
+        params_before.push(("level".to_string(), "1".to_string()));
+    }
+    if q_text.is_some() && r.chance(1, 10) {
+        params_after.push(("ext".to_string(), "1".to_string()));
+    }
+    Range { ty, sub, q, q_text, params_before, params_after, upper: r.chance(1, 6), ows: r.below(4) as u8 }
+}
+
+fn render_range(g: &Range) -> String {
+    let mut s = format!("{}/{}", g.ty, g.sub);
+    if g.upper {
+        s = s.to_uppercase();
+    }
+    let sep = match g.ows {
+        0 => ";",
+        1 => "; ",
+        2 => " ;",
+        _ => " ; ",
+    };
+    for (k, v) in &g.params_before {
+        s.push_str(&format!("{}{}={}", sep, k, v));
+    }
+    if let Some(q) = &g.q_text {
+        s.push_str(&format!("{}{}={}", sep, if g.upper { "Q" } else { "q" }, q));
+    }
+    for (k, v) in &g.params_after {
+        s.push_str(&format!("{}{}={}", sep, k, v));
+    }
+    s
+}
+
+fn matches(g: &Range, e: &Enc) -> Option<u8> {
+    if g.ty == "*" && g.sub == "*" {
+        Some(0)
+    } else if g.ty == e.ty && g.sub == "*" {
+        Some(1)
+    } else if g.ty == e.ty && g.sub == e.sub {
+        Some(2)
+    } else {
+        None
+    }
+}
+
+#[derive(Debug)]
+enum Verdict {
+    /// exactly these winners are acceptable
+    OneOf(Vec<&'static str>),
+    NoneAcceptable,
+    /// the property does not decide this case
+    Open(&'static str),
+}
+
+/// Reference decision from the property text. `params_specific`: alternative reading in which
+/// additional media-type parameters make a range more specific (used only to classify
+/// disagreements on headers with parameters as observed-only).
+fn decide(ranges: &[Range], regs: &[Enc], params_specific: bool) -> (Verdict, &'static str) {
+    if regs.is_empty() {
+        return (Verdict::NoneAcceptable, "no-encodings");
+    }
+    if ranges.is_empty() {
+        return (Verdict::OneOf(vec![regs[0].id]), "no-accept");
+    }
+    // per encoding: (quality, candidate indices of its most specific matching ranges)
+    let mut permitted: Vec<(usize, u32, Vec<usize>)> = vec![];
+    let mut open = None;
+    for (ri, e) in regs.iter().enumerate() {
+        let ms: Vec<(usize, u8, usize)> = ranges
+            .iter()
+            .enumerate()
+            .filter_map(|(i, g)| {
+                matches(g, e).map(|l| (i, l, if params_specific { g.params_before.len() + g.params_after.len() } else { 0 }))
+            })
+            .collect();
+        let Some(top) = ms.iter().map(|(_, l, p)| (*l, *p)).max() else { continue };
+        let tops: Vec<usize> = ms.iter().filter(|(_, l, p)| (*l, *p) == top).map(|(i, _, _)| *i).collect();
+        let qs: Vec<u32> = tops.iter().map(|i| ranges[*i].q).collect();
+        if qs.iter().any(|q| *q != qs[0]) {
+            open = Some("most-specific-ranges-disagree-on-q");
+            continue;
+        }
+        if qs[0] > 0 {
+            permitted.push((ri, qs[0], tops));
+        }
+    }
+    if let Some(o) = open {
+        return (Verdict::Open(o), "open");
+    }
+    if permitted.is_empty() {
+        return (Verdict::NoneAcceptable, "none-permitted");
+    }
+    let best = permitted.iter().map(|p| p.1).max().unwrap();
+    let top: Vec<&(usize, u32, Vec<usize>)> = permitted.iter().filter(|p| p.1 == best).collect();
+    if top.len() == 1 {
+        let rule = if permitted.len() == 1 { "single-permitted" } else { "highest-quality" };
+        return (Verdict::OneOf(vec![regs[top[0].0].id]), rule);
+    }
+    // tie: earlier range, then earlier registration. An encoding with several equally specific
+    // ranges may be represented by any of them.
+    let mut winners = vec![];
+    for w in &top {
+        let w_min = *w.2.iter().min().unwrap();
+        let ok = top.iter().all(|m| {
+            let m_max = *m.2.iter().max().unwrap();
+            (w_min, w.0) <= (m_max, m.0)
+        });
+        if ok {
+            winners.push(regs[w.0].id);
+        }
+    }
+    let by_range = top.iter().map(|t| t.2.iter().min().unwrap()).collect::<std::collections::BTreeSet<_>>().len() > 1;
+    (Verdict::OneOf(winners), if by_range { "tie-range-order" } else { "tie-registration-order" })
+}
+
+fn id_of(ct: &HeaderValue) -> &'static str {
+    let s = ct.to_str().unwrap_or("");
+    ENCODINGS.iter().find(|e| e.content_type == s).map(|e| e.id).unwrap_or("?")
+}
+
+fn gen_regs(r: &mut Rng) -> Vec<Enc> {
+    let mut all = ENCODINGS.to_vec();
+    r.shuffle(&mut all);
+    let n = 1 + r.below(all.len());
+    all.truncate(n);
+    all
+}
+
+fn is_invalid_argument(e: &conjure_error::Error) -> bool {
+    matches!(e.kind(), ErrorKind::Service(s) if *s.error_code() == ErrorCode::InvalidArgument)
+}
+
+fn accept_case(seed: u64, rep: &mut Report) {
+    let mut rng = Rng::new(seed);
+    let r = &mut rng;
+    let regs = gen_regs(r);
+    let n_entries = r.below(7);
+    let mut entries: Vec<Entry> = (0..n_entries)
+        .map(|_| {
+            if r.chance(1, 12) {
+                Entry::Garbage(r.pick(GARBAGE).to_string())
+            } else {
+                Entry::Range(gen_range(r, &regs))
+            }
+        })
+        .collect();
+    // bias: duplicate a range with another q, or add a wildcard with q=0
+    if !entries.is_empty() && r.chance(1, 6) {
+        if let Some(Entry::Range(g)) = entries.iter().find(|e| matches!(e, Entry::Range(_))).cloned() {
+            let mut g2 = g.clone();
+            let (q, t) = gen_q(r);
+            g2.q = q;
+            g2.q_text = t;
+            entries.push(Entry::Range(g2));
+        }
+    }
+    // split over header lines
+    let mut lines: Vec<Vec<String>> = vec![vec![]];
+    for e in &entries {
+        if r.chance(1, 5) {
+            lines.push(vec![]);
+        }
+        lines.last_mut().unwrap().push(match e {
+            Entry::Range(g) => render_range(g),
+            Entry::Garbage(s) => s.clone(),
+        });
+    }
+    let mut headers = HeaderMap::new();
+    let mut rendered = vec![];
+    for l in lines.iter().filter(|l| !l.is_empty()) {
+        let sep = *r.pick(&[",", ", ", " , ", ",  "]);
+        let text = l.join(sep);
+        rendered.push(text.clone());
+        headers.append(ACCEPT, HeaderValue::from_str(&text).expect("ascii"));
+    }
+    if r.chance(1, 25) {
+        // a line that is not valid header text at all is skipped by any reading
+        headers.append(ACCEPT, HeaderValue::from_bytes(b"application/json\xff").unwrap());
+        rendered.push("<non-ascii line>".into());
+    }
+    let ranges: Vec<Range> = entries
+        .iter()
+        .filter_map(|e| match e {
+            Entry::Range(g) => Some(g.clone()),
+            _ => None,
+        })
+        .collect();
+    let has_params = ranges.iter().any(|g| !g.params_before.is_empty() || !g.params_after.is_empty());
+    let all_garbage = ranges.is_empty() && !entries.is_empty();
+    let (verdict, rule) = decide(&ranges, &regs, false);
+
+    let runtime = build_runtime(&regs);
+    let got = guarded(|| runtime.response_body_encoding(&headers).map(|e| e.content_type()));
+    let reg_ids: Vec<&str> = regs.iter().map(|e| e.id).collect();
+    let sig = format!(
+        "{}|n={}|regs={}|garbage={}|params={}",
+        rule,
+        ranges.len().min(4),
+        reg_ids.join(","),
+        entries.len() != ranges.len(),
+        has_params
+    );
+    rep.evaluations += 1;
+    rep.distinct.insert(fnv(&sig));
+    let detail = || json!({"accept": rendered, "registered": reg_ids, "model": format!("{:?}", verdict), "rule": rule});
+    rep.sample(5, || json!({"sub": "accept", "case_seed": seed, "case": detail()}));
+    if all_garbage || (headers.get_all(ACCEPT).iter().count() > 0 && ranges.is_empty()) {
+        // only unparsable entries: the property is silent on whether that means "no Accept"
+        rep.observed_only("accept-with-only-unparsable-entries");
+        if got.is_err() {
+            rep.violation("accept", seed, "accept:panic", json!({"case": detail(), "panic": got.err()}));
+        }
+        return;
+    }
+    let got = match got {
+        Err(p) => {
+            rep.violation("accept", seed, "accept:panic", json!({"case": detail(), "panic": p}));
+            return;
+        }
+        Ok(g) => g,
+    };
+    let observed: Result<&'static str, bool> = match &got {
+        Ok(ct) => Ok(id_of(ct)),
+        Err(e) => Err(is_invalid_argument(e)),
+    };
+    let agrees = |v: &Verdict| match (v, &observed) {
+        (Verdict::OneOf(w), Ok(id)) => w.contains(id),
+        (Verdict::NoneAcceptable, Err(_)) => true,
+        (Verdict::Open(_), _) => true,
+        _ => false,
+    };
+    if let Verdict::Open(class) = verdict {
+        rep.observed_only(class);
+        return;
+    }
+    rep.cell(&format!("rule/{}", rule));
+    if agrees(&verdict) {
+        if let Err(false) = observed {
+            rep.violation("accept", seed, "accept:error-not-invalid-argument", detail());
+        }
+        // cross-check through the response serializer: Content-Type of the response
+        if let Ok(id) = observed {
+            let resp = guarded(|| {
+                <StdResponseSerializer as SerializeResponse<_, Vec<u8>>>::serialize(&runtime, &headers, 5i32)
+            });
+            match resp {
+                Ok(Ok(resp)) => {
+                    let ct = resp.headers().get(CONTENT_TYPE).map(id_of);
+                    if ct != Some(id) {
+                        rep.violation("accept", seed, "accept:serializer-content-type-differs", detail());
+                    }
+                }
+                _ => rep.violation("accept", seed, "accept:serializer-failed", detail()),
+            }
+        }
+        return;
+    }
+    if has_params && agrees(&decide(&ranges, &regs, true).0) {
+        rep.observed_only("parameters-counted-as-specificity");
+        return;
+    }
+    let what = match (&verdict, &observed) {
+        (Verdict::NoneAcceptable, Ok(_)) => "chose-encoding-not-permitted",
+        (Verdict::OneOf(_), Err(_)) => "rejected-though-permitted",
+        _ => "wrong-encoding",
+    };
+    rep.violation(
+        "accept",
+        seed,
+        format!("accept:{}:{}", what, rule),
+        json!({"case": detail(), "observed": format!("{:?}", observed)}),
+    );
+}
+
+fn content_type_case(seed: u64, rep: &mut Report) {
+    let mut rng = Rng::new(seed);
+    let r = &mut rng;
+    let regs = gen_regs(r);
+    let runtime = build_runtime(&regs);
+    let mut headers = HeaderMap::new();
+    // (rendered header bytes, Some((type, subtype)) if it is a well-formed concrete media type)
+    let (bytes, parsed, class): (Vec<u8>, Option<(String, String)>, &str) = match r.below(12) {
+        0 => (vec![], None, "absent"),
+        1 => (r.pick(GARBAGE).as_bytes().to_vec(), None, "garbage"),
+        2 => (b"application/json\xff".to_vec(), None, "non-ascii"),
+        3 => (b"*/*".to_vec(), Some(("*".into(), "*".into())), "wildcard"),
+        4 => (b"application/*".to_vec(), Some(("application".into(), "*".into())), "wildcard"),
+        _ => {
+            let (ty, sub) = if r.chance(2, 3) {
+                let e = r.pick(ENCODINGS);
+                (e.ty.to_string(), e.sub.to_string())
+            } else {
+                let (t, s) = r.pick(OTHER_TYPES);
+                (t.to_string(), s.to_string())
+            };
+            let mut g = gen_range(r, &regs);
+            g.ty = ty.clone();
+            g.sub = sub.clone();
+            g.q_text = None;
+            g.params_after.clear();
+            if r.chance(1, 3) {
+                g.params_before.push(("charset".into(), "UTF-8".into()));
+            }
+            (render_range(&g).into_bytes(), Some((ty, sub)), if g.params_before.is_empty() { "plain" } else { "with-params" })
+        }
+    };
+    if class != "absent" {
+        headers.insert(CONTENT_TYPE, HeaderValue::from_bytes(&bytes).expect("header bytes"));
+    }
+    let expected: Option<&'static str> = parsed
+        .as_ref()
+        .and_then(|(t, s)| regs.iter().find(|e| e.ty == t && e.sub == s))
+        .map(|e| e.id);
+    let got = guarded(|| runtime.request_body_encoding(&headers).map(|e| e.content_type()));
+    let reg_ids: Vec<&str> = regs.iter().map(|e| e.id).collect();
+    rep.evaluations += 1;
+    rep.cell(&format!("content-type/{}/{}", class, if expected.is_some() { "match" } else { "no-match" }));
+    rep.distinct.insert(fnv(&format!("ct|{}|{:?}|{}", class, expected, reg_ids.join(","))));
+    let detail = json!({"content_type": String::from_utf8_lossy(&bytes), "registered": reg_ids, "expected": expected});
+    rep.sample(7, || json!({"sub": "content-type", "case_seed": seed, "case": detail.clone()}));
+    match got {
+        Err(p) => rep.violation("content-type", seed, "content-type:panic", json!({"case": detail, "panic": p})),
+        Ok(Ok(ct)) => {
+            let id = id_of(&ct);
+            if expected != Some(id) {
+                rep.violation(
+                    "content-type",
+                    seed,
+                    if expected.is_none() { "content-type:decoded-with-non-matching-encoding" } else { "content-type:wrong-encoding" },
+                    json!({"case": detail, "observed": id}),
+                );
+            }
+        }
+        Ok(Err(e)) => {
+            if expected.is_some() {
+                rep.violation("content-type", seed, "content-type:rejected-though-registered", json!({"case": detail, "error": format!("{:?}", e)}));
+            } else if !is_invalid_argument(&e) {
+                rep.violation("content-type", seed, "content-type:error-not-invalid-argument", json!({"case": detail}));
+            }
+        }
+    }
+}
+
+pub fn run(ctx: &Ctx, report: &mut Report) {
+    ctx.cases(report, "accept", ctx.n(300_000, 20_000_000), accept_case);
+    ctx.cases(report, "content-type", ctx.n(100_000, 3_000_000), content_type_case);
+    if ctx.replay.is_none() {
+        report.floor_cells("rules-decided", "rule/", 6);
+        report.floor_cells("content-type-classes", "content-type/", 8);
+    }
+    report.notes.push(
+        "distinct = distinct (deciding rule, #ranges, ordered registration, garbage?, params?) and (content-type class, expected, registration)".into(),
+    );
 }
